@@ -28,6 +28,7 @@ Record sat3 := { s3_id : string; s3_cells : list cell; s3_cut : bool }.
 Record epoch3 := { e3_t : epoch_t; e3_sats : list sat3 }.
 Record file3 := { f3_marker : string;
                   f3_systypes : list (string * list string);       (* SYS / # / OBS TYPES, in header order *)
+                  f3_first : epoch_t;                              (* TIME OF FIRST OBS (GPS) *)
                   f3_epochs : list epoch3 }.
 
 (* > yyyy mm dd hh mm ss.sssssss  f nnn      ccc.cccccccccccc     A1,1X,I4,4(1X,I2.2),F11.7,2X,I1,I3,6X,F15.12 *)
@@ -55,8 +56,14 @@ Definition types_lines_v3 (st : string * list string) : list string :=
                 :: map (fun c => hdr_line (types_body_v3 None c) types_label_v3) cr
   end.
 Definition end_of_header : string := hdr_line "" "END OF HEADER".
+(* TIME OF FIRST OBS: 5I6, F13.7, 5X, A3 *)
+Definition first_obs_pieces (t : epoch_t) : list string :=
+  [render_int 6 (ep_y t); render_int 6 (ep_mo t); render_int 6 (ep_d t); render_int 6 (ep_h t); render_int 6 (ep_mi t);
+   render_F 13 7 (ep_s7 t); "     "; "GPS"].
+Definition first_obs_line (t : epoch_t) : string := hdr_line (cat (first_obs_pieces t)) "TIME OF FIRST OBS".
+Definition first_ok (t : epoch_t) : Prop := epoch_t_wf t /\ fits_int 6 (ep_y t) /\ fits_F 13 7 (ep_s7 t).
 Definition render_header3 (f : file3) : list string :=
-  hdr_line (f3_marker f) "MARKER NAME" :: concat (map types_lines_v3 (f3_systypes f)) ++ [end_of_header].
+  hdr_line (f3_marker f) "MARKER NAME" :: concat (map types_lines_v3 (f3_systypes f)) ++ [first_obs_line (f3_first f); end_of_header].
 Definition render_file3 (f : file3) : list string := render_header3 f ++ render_body_v3 (f3_epochs f).
 
 (* well-formedness *)
@@ -74,7 +81,7 @@ Definition epoch3_ok st (e : epoch3) : Prop :=
   epoch_t_wf (e3_t e) /\ fits_int 3 (Z.of_nat (List.length (e3_sats e))) /\ Forall (sat3_ok st) (e3_sats e).
 Definition file3_ok (f : file3) : Prop :=
   trimmed (f3_marker f) = true /\ len (f3_marker f) <= 60 /\
-  systypes_ok (f3_systypes f) /\ Forall (epoch3_ok (f3_systypes f)) (f3_epochs f).
+  systypes_ok (f3_systypes f) /\ first_ok (f3_first f) /\ Forall (epoch3_ok (f3_systypes f)) (f3_epochs f).
 
 (* ------------------------------------------------------------------------------------------ RINEX 2 *)
 Record sat2 := { s2_id : string; s2_cells : list cell; s2_cut : bool }.
@@ -94,11 +101,6 @@ Definition types_lines_v2 (types : list string) : list string :=
   | c0 :: cr => hdr_line (types_body_v2 (Some (Z.of_nat (List.length types))) c0) types_label_v2
                 :: map (fun c => hdr_line (types_body_v2 None c) types_label_v2) cr
   end.
-(* TIME OF FIRST OBS: 5I6, F13.7, 5X, A3 *)
-Definition first_obs_pieces (t : epoch_t) : list string :=
-  [render_int 6 (ep_y t); render_int 6 (ep_mo t); render_int 6 (ep_d t); render_int 6 (ep_h t); render_int 6 (ep_mi t);
-   render_F 13 7 (ep_s7 t); "     "; "GPS"].
-Definition first_obs_line (t : epoch_t) : string := hdr_line (cat (first_obs_pieces t)) "TIME OF FIRST OBS".
 Definition render_header2 (f : file2) : list string :=
   hdr_line (f2_marker f) "MARKER NAME" :: types_lines_v2 (f2_types f) ++ [first_obs_line (f2_first f); end_of_header].
 
@@ -132,7 +134,7 @@ Definition sat2_ok (ntypes : nat) (s : sat2) : Prop :=
 Definition epoch2_ok (century : Z) (ntypes : nat) (e : epoch2) : Prop :=
   epoch_t_wf (e2_t e) /\ (ep_y (e2_t e) / 100 = century)%Z /\
   match ep_clk (e2_t e) with None => True | Some c => fits_F 12 9 c end /\
-  fits_int 3 (Z.of_nat (List.length (e2_sats e))) /\ Forall (sat2_ok ntypes) (e2_sats e).
+  fits_int 3 (Z.of_nat (List.length (e2_sats e))) /\ e2_sats e <> [] /\ Forall (sat2_ok ntypes) (e2_sats e).
 Definition file2_ok (f : file2) : Prop :=
   trimmed (f2_marker f) = true /\ len (f2_marker f) <= 60 /\
   f2_types f <> [] /\ NoDup (f2_types f) /\ Forall type2_ok (f2_types f) /\ fits_int 6 (Z.of_nat (List.length (f2_types f))) /\
